@@ -637,6 +637,7 @@ def build(tier, seed):
     functions["Get_Elements_Nodes"] = extract.get(GP, "_GroupElem.Get_Elements_Nodes").describe()
     GP_GROUPS = {'operators.load'}
     obs += ops.obligations('C09', tier, GP_GROUPS)
+    obs += ops.load_obligations('C09', tier)
     obs.append(ops.selfcheck_ob('C09'))
     return dict(
         obs=obs, level="other", min_obligations=20,
